@@ -134,8 +134,37 @@ def stage_hyp(ctx):
     hyp_drive(ctx, cases(), judge, 700 if ctx.tier == "quick" else 20000)
 
 
+def stage_boundary(ctx):
+    """Cells containing the places where the library's own branches / discrete decisions flip (lib/boundary.py), at
+    res 20..28, each descended along every path of two levels."""
+    from lib import boundary
+    a5 = _a5()
+    anc = boundary.anchors(ctx, "proj", 150 if ctx.tier == "quick" else 800) + boundary.anchors(ctx, "cell", 60 if ctx.tier == "quick" else 300, per_type=2)
+    if not anc:
+        ctx.col.count("boundary_stage_skipped")
+        return
+    n = 0
+    budget = 60 if ctx.tier == "quick" else 1500
+    # round-robin over boundary types (the list comes grouped by type)
+    rank = {}
+    order = []
+    for a in anc:
+        rank[a["type"]] = rank.get(a["type"], 0) + 1
+        order.append((rank[a["type"]], a["type"], len(order)))
+    anc = [anc[i] for _, _, i in sorted(order)]
+    for i, a in enumerate(anc):
+        if n >= budget:
+            break
+        for res in ((28, 27) if i % 2 else (26, 22)):
+            c = guarded(a5.lonlat_to_cell, (a["lon"], a["lat"]), res, kind="lonlat_to_cell_raised", case={"lon": a["lon"], "lat": a["lat"], "res": res})
+            depth = min(2, 29 - res)
+            for path in itertools.product(range(4), repeat=depth):
+                judge_path({"cell": hex(c), "path": list(path)}, ctx.col)
+            n += 1
+
+
 def plan(tier):
-    return [Stage("nesting", 1, stage_nesting), Stage("allpaths", 16, stage_allpaths, cost=8), Stage("hyp", 16, stage_hyp, cost=6)]
+    return [Stage("nesting", 1, stage_nesting), Stage("allpaths", 16, stage_allpaths, cost=8), Stage("hyp", 16, stage_hyp, cost=6), Stage("boundary", 16, stage_boundary, cost=5)]
 
 
 def replay(rec, col):
